@@ -295,3 +295,56 @@ Qed.
 
 Lemma skip_quoted_escaped : forall m r, escaped_ok m = true -> skip_quoted (m ++ x22 :: r) = length m.
 Proof. intros m r H. apply (skip_quoted_escaped_aux (length m)); [lia | exact H]. Qed.
+
+(* ---- skip_ws / find_split under extension of the text *)
+Lemma skip_ws_app : forall a c r, re_space c = false ->
+  skip_ws (a ++ c :: r) = (fst (skip_ws (a ++ [c])), snd (skip_ws (a ++ [c])) ++ r).
+Proof.
+  induction a as [|x a IH]; intros c r Hc.
+  - cbn [app skip_ws]. rewrite Hc. reflexivity.
+  - cbn [app skip_ws]. destruct (re_space x).
+    + rewrite (IH c r Hc). destruct (skip_ws (a ++ [c])) as [k r']. reflexivity.
+    + cbn [fst snd]. rewrite <- app_comm_cons, <- app_assoc. reflexivity.
+Qed.
+
+Lemma skip_ws_rest_nonempty : forall a c, re_space c = false -> snd (skip_ws (a ++ [c])) <> [].
+Proof.
+  induction a as [|x a IH]; intros c Hc.
+  - cbn [app skip_ws]. rewrite Hc. discriminate.
+  - cbn [app skip_ws]. destruct (re_space x).
+    + specialize (IH c Hc). destruct (skip_ws (a ++ [c])) as [k r']. exact IH.
+    + discriminate.
+Qed.
+
+(* the text a ++ [c] (c not a blank, not the opening byte) and any continuation: same decisions inside a *)
+Lemma find_split_extend : forall opn cl a c rest i, re_space c = false -> Byte.eqb c opn = false ->
+  find_split opn cl (a ++ c :: rest) i =
+  match find_split opn cl (a ++ [c]) i with
+  | Some pq => Some pq
+  | None => find_split opn cl (c :: rest) (i + length a)
+  end.
+Proof.
+  intros opn cl a. induction a as [|x a IH]; intros c rest i Hc Hco.
+  - cbn [app length]. assert (E : find_split opn cl [c] i = None) by (cbn [find_split]; rewrite Hco; reflexivity).
+    rewrite E. f_equal. lia.
+  - cbn [app find_split length]. replace (i + S (length a))%nat with (S i + length a)%nat by lia.
+    destruct (Byte.eqb x opn); [|apply IH; assumption].
+    rewrite (skip_ws_app a c rest Hc). pose proof (skip_ws_rest_nonempty a c Hc) as Hne.
+    destruct (skip_ws (a ++ [c])) as [k r'] eqn:E. cbn [fst snd] in *.
+    destruct k as [|k]; [apply IH; assumption|].
+    destruct r' as [|d r'']; [contradiction|]. cbn [app].
+    destruct (memb d cl); [reflexivity|]. apply IH; assumption.
+Qed.
+
+
+Lemma find_split_opn : forall opn cl s i a b, find_split opn cl s i = Some (a, b) ->
+  exists pre post, s = pre ++ opn :: post /\ a = (i + length pre)%nat.
+Proof.
+  intros opn cl s. induction s as [|c s IH]; intros i a b; cbn [find_split]; [discriminate|].
+  assert (Hrec : find_split opn cl s (S i) = Some (a, b) -> exists pre post, c :: s = pre ++ opn :: post /\ a = (i + length pre)%nat).
+  { intros H. destruct (IH _ _ _ H) as [pre [post [Hs Ha]]]. exists (c :: pre), post. split; [cbn; rewrite Hs; reflexivity | cbn; lia]. }
+  destruct (Byte.eqb c opn) eqn:E; [|exact Hrec].
+  destruct (skip_ws s) as [k r']. destruct k as [|k]; [exact Hrec|]. destruct r' as [|d r']; [exact Hrec|].
+  destruct (memb d cl); [|exact Hrec].
+  intros H. inversion H. subst. apply beqb_eq in E. subst c. exists [], s. split; [reflexivity | cbn; lia].
+Qed.
